@@ -85,6 +85,8 @@ def run(ctx) -> None:
   ctx.rule('R5', 'feasibility dispatch total with matching accessors; exact handler; exact integrality test', 4)
   ctx.rule('R6', 'Study.add_trial validates against the freshly fetched search space before the service call', 1)
   ctx.rule('R7', 'sequential walk validates every chosen value', 2)
+  ctx.rule('R9', 'a copy of a config / search space that is then modified in place is a deep copy (a shallow copy shares the '
+           'children tables with the original)', 1)
   ctx.rule('R8', 'one ParameterConfig object per subspace: `.add(x)` inside a loop gets a new object per innermost iteration', 4)
   mod = ctx.index.need_module(PCMOD)
   pc = mod.classes.get('ParameterConfig')
@@ -99,6 +101,7 @@ def run(ctx) -> None:
   r6_add_trial(ctx)
   r7_walk(ctx, pc)
   r8_unique_config_objects(ctx, ss)
+  r9_deep_clones(ctx)
 
 
 # ----------------------------------------------------------------------- R8
@@ -244,10 +247,71 @@ def r1_factory(ctx, mod, pc) -> None:
             'numeric feasible values are not normalised (finite, sorted)', construct='numeric-fv', func=fi.qualname)
   ctx.check(under_kind_test(cat, ('str',)) and 'sorted(' in t2, 'R1', 'categorical feasible values sorted', fi.node,
             '_get_categories sorts, applied under the all-strings test', 'categories are not sorted', construct='cat-fv', func=fi.qualname)
+  # the normalisers only re-order: the values they return are the values the duplicate test saw (a per-element
+  # conversion such as float(v) can map distinct values to one)
+  for fnorm, label in ((f1, 'numeric'), (f2, 'categorical')):
+    if fnorm is None:
+      continue
+    par = [p_ for p_ in fnorm.params if p_ not in ('self', 'cls')][0]
+    conv = None
+    for r_ in (x for x in ast.walk(fnorm.node) if isinstance(x, ast.Return) and x.value is not None):
+      v_ = r_.value.elts[0] if isinstance(r_.value, ast.Tuple) and r_.value.elts else r_.value
+      v_ = flow.resolve_local(fnorm.node, v_)
+      e_ = v_
+      while isinstance(e_, ast.Call) and dotted(e_.func) in ('list', 'sorted', 'tuple') and len(e_.args) == 1 and not e_.keywords:
+        e_ = flow.resolve_local(fnorm.node, e_.args[0])
+      if not (isinstance(e_, ast.Name) and e_.id == par):
+        conv = e_
+    ctx.check(conv is None, 'R1', f'{label} feasible values are only re-ordered by the normaliser', fnorm.node,
+              'sorted(list(values)) of the values that were checked for duplicates',
+              f'the normaliser returns `{unparse(conv, 60) if conv is not None else ""}`: values are converted one by one after the duplicate test, so '
+              'distinct inputs (e.g. integers above 2**53) can collapse into duplicate feasible values', construct=f'normaliser-converts:{label}',
+              func=fnorm.qualname)
   mixed = bool(num + cat) and cn not in g.reachable([x for x in fv_true if x not in num + cat], blocked=num + cat, include_starts=True)
   ctx.check(mixed, 'R1', 'mixed value kinds rejected', fi.node,
             'every path from "feasible values given" to the constructor passes one of the two normalisers (anything else raises)',
             'mixed numeric/string feasible values are accepted', construct='mixed', func=fi.qualname)
+
+
+def r9_deep_clones(ctx) -> None:
+  mod = ctx.index.need_module(PCMOD)
+  n = 0
+  for ci in mod.classes.values():
+    mutators = set()
+    for m in ci.methods.values():
+      for x in ast.walk(m.node):
+        if isinstance(x, ast.Call) and isinstance(x.func, ast.Attribute) and x.func.attr in ('clear', 'pop', 'append', 'extend', 'update', 'remove', 'insert', 'setdefault', 'popitem', 'add', 'discard', 'sort') \
+            and (dotted(x.func.value) or '').startswith('self._'):
+          mutators.add(m.name)
+        if isinstance(x, (ast.Assign, ast.Delete)):
+          for t in x.targets:
+            if isinstance(t, ast.Subscript) and (dotted(t.value) or '').startswith('self._'):
+              mutators.add(m.name)
+    for m in ci.methods.values():
+      copies = {}
+      for x in ast.walk(m.node):
+        if isinstance(x, ast.Assign) and len(x.targets) == 1 and isinstance(x.targets[0], ast.Name) and isinstance(x.value, ast.Call) \
+            and dotted(x.value.func) in ('copy.copy', 'copy.deepcopy') and x.value.args:
+          copies[x.targets[0].id] = (dotted(x.value.func), x)
+      for var, (kind, node) in copies.items():
+        changed = None
+        for x in ast.walk(m.node):
+          if isinstance(x, ast.Call) and isinstance(x.func, ast.Attribute) and isinstance(x.func.value, ast.Name) and x.func.value.id == var \
+              and x.func.attr in mutators:
+            changed = changed or x
+          if isinstance(x, ast.Call) and isinstance(x.func, ast.Attribute) and x.func.attr in ('clear', 'pop', 'append', 'extend', 'update', 'remove', 'insert', 'setdefault', 'popitem', 'add', 'discard', 'sort') \
+              and (dotted(x.func.value) or '').startswith(var + '._'):
+            changed = changed or x
+        if changed is None:
+          continue
+        n += 1
+        ctx.check(kind == 'copy.deepcopy', 'R9', f'{ci.name}.{m.name}: `{var}` is modified in place', node,
+                  'the copy is a deep copy',
+                  f'`{var} = {unparse(node.value, 40)}` is a shallow copy and `{unparse(changed, 50)}` then changes one of its containers in place: the '
+                  'container is shared with the original, whose children / subspaces are changed too (a conditional space loses its children after '
+                  'a read-only traversal)', construct=f'{ci.name}.{m.name}:shallow-clone', func=m.qualname)
+  if n < 1:
+    raise AnalysisError('no copy-then-modify site found in parameter_config (clone_without_children on the pinned tree)')
 
 
 def r2_add(ctx, ss) -> None:
